@@ -140,6 +140,44 @@ SchemaShapes ==
   {Prop(Scope("after", Ev("t", "A", NoPred), NoPred), Pat1("no", Ev("u", "", Pr(c)))) : c \in SPreds}
   \cup {Prop(Scope("globally", NoPred, NoPred), Pat2("causes", Ev("t", "A", Pr(Bn(">", Own("n"), NumA("0")))), Ev("w", "", Pr(c)))) : c \in UNION {SCtx(r) : r \in {Own("n"), Own("q"), Fld(VarR("@A"), "n"), Fld(VarR("@A"), "q")}}}
 
+\* predicates that are WELL-TYPED under the schema M of harness/checks/c17.py (C04):
+\* n,k,K: number; b: bool; s: string; xs: number[]; fx: number[3]; m: Inner{n, t: string, deep{z}};
+\* ms: Inner[]; mf: Inner[2]; alias A bound to a message of type M
+WNum == { Own("n"), Own("k"), Own("K"), Idx(Own("xs"), NumA("0")), Idx(Own("xs"), Own("k")), Idx(Own("fx"), NumA("2")),
+          Idx(Own("xs"), Bn("+", Own("k"), NumA("1"))), Fld(Own("m"), "n"), Fld(Fld(Own("m"), "deep"), "z"),
+          Fld(Idx(Own("ms"), NumA("0")), "n"), Fld(Idx(Own("mf"), NumA("1")), "n"), Fld(Idx(Own("ms"), Own("k")), "n"),
+          Fld(VarR("@A"), "n"), Fld(Fld(VarR("@A"), "m"), "n"), Idx(Fld(VarR("@A"), "xs"), NumA("1")), Fld(VarR("@A"), "K") }
+WBool == { Own("b"), Fld(VarR("@A"), "b") }
+WStr  == { Own("s"), Fld(Own("m"), "t"), Fld(VarR("@A"), "s"), Fld(Idx(Own("ms"), NumA("1")), "t") }
+WArr  == { Own("xs"), Own("fx"), Fld(VarR("@A"), "xs") }
+WTerm(r) == { r, Un("-", r), Bn("+", r, NumA("1")), Bn("*", r, Own("k")), Call("abs", r), Call("max", SetOf(<<r, NumA("2")>>)),
+              Call("sum", Rng("[", NumA("0"), r, "]")), Bn("**", r, NumA("2")) }
+WPreds ==
+  UNION {{Bn(op, t, NumA("0")) : op \in {"=", "<", ">="}, t \in WTerm(r)} : r \in WNum}
+  \cup {Bn(op, a, b) : op \in {"=", "!=", "<"}, a \in WNum, b \in {Own("n"), Fld(VarR("@A"), "n"), Idx(Own("xs"), NumA("0"))}}
+  \cup {Bn("and", Bn("=", a, Own("k")), Bn(">", a, NumA("0"))) : a \in WNum}
+  \cup {Bn(op, a, b) : op \in {"=", "!="}, a \in WStr, b \in WStr \cup {StrA("$s")}}
+  \cup {Bn(op, a, b) : op \in {"and", "or", "implies", "iff", "="}, a \in WBool, b \in WBool \cup {Bn(">", Own("n"), NumA("0"))}}
+  \cup {Un("not", a) : a \in WBool} \cup WBool
+  \cup {Bn("in", a, SetOf(<<b, NumA("1")>>)) : a \in WNum, b \in {Own("k"), Fld(VarR("@A"), "n")}}
+  \cup {Bn("in", a, Rng(lb, NumA("0"), b, "]")) : a \in {Own("n"), Fld(VarR("@A"), "n")}, b \in WNum, lb \in {"[", "!["}}
+  \cup {Bn("in", a, c) : a \in {Own("n"), Fld(Own("m"), "n")}, c \in WArr}
+  \cup {Bn("in", a, SetOf(<<StrA("$s"), b>>)) : a \in WStr, b \in WStr}
+  \cup {Qn(q, "j", d, Bn(">", VarR("@j"), r)) : q \in {"forall", "exists"}, d \in WArr, r \in {NumA("0"), Own("n"), Fld(VarR("@A"), "n")}}
+  \cup {Qn(q, "j", Rng("[", NumA("0"), r, "]"), Bn(">", Idx(Own("xs"), VarR("@j")), NumA("0"))) : q \in {"forall", "exists"}, r \in {NumA("2"), Own("k"), Call("len", Own("xs"))}}
+  \cup {Qn("forall", "j", Rng("[", NumA("0"), NumA("1"), "]"), Bn(">", Fld(Idx(Own("ms"), VarR("@j")), "n"), NumA("0"))),
+        Qn("exists", "j", Rng("[", NumA("0"), NumA("1"), "]"), Bn("=", Fld(Idx(Own("mf"), VarR("@j")), "t"), StrA("$s"))),
+        Qn("forall", "j", SetOf(<<NumA("1"), Own("k")>>), Bn("=", VarR("@j"), Own("n"))),
+        Qn("forall", "j", Own("ms"), Bn(">", Fld(VarR("@j"), "n"), NumA("0"))),
+        Qn("exists", "j", Fld(VarR("@A"), "ms"), Bn("=", Fld(VarR("@j"), "t"), Own("s"))),
+        Qn("forall", "j", SetOf(<<StrA("$s"), Own("s")>>), Bn("!=", VarR("@j"), Fld(Own("m"), "t"))),
+        Qn("forall", "j", Own("xs"), Qn("exists", "i", Fld(VarR("@A"), "xs"), Bn("<", VarR("@i"), VarR("@j")))),
+        Bn(">", Call("len", Own("xs")), NumA("0")), Bn("=", Call("len", Own("fx")), NumA("3")),
+        Bn("<", Call("sum", Own("xs")), Call("prod", Fld(VarR("@A"), "xs"))), Bn("=", Call("str", Own("n")), Own("s")),
+        Bn("=", Call("int", Own("s")), Own("k")), Bn("and", Call("bool", Own("n")), Own("b")) }
+WellTypedShapes ==
+  {Prop(Scope("after", Ev("t", "A", NoPred), NoPred), Pat1("no", Ev("u", "", Pr(c)))) : c \in WPreds}
+
 ShapeMembers ==
   CASE ShapeFamily = "simple" -> SimpleShapes
     [] ShapeFamily = "quant"  -> QuantShapes
@@ -147,6 +185,7 @@ ShapeMembers ==
     [] ShapeFamily = "width"  -> WidthShapes
     [] ShapeFamily = "mon"    -> MonShapes
     [] ShapeFamily = "schema" -> SchemaShapes
+    [] ShapeFamily = "welltyped" -> WellTypedShapes
     [] OTHER -> {}
 
 SInit == cst \in ShapeMembers
